@@ -54,6 +54,7 @@ func (c *Collection) SetWithMeta(_ context.Context, key string, oldCas CAS, newC
 // writeWithMeta writes a document which will be stored with a cas value of newCas.  It still performs the standard CAS check for optimistic concurrency using oldCas, when specified.
 func (c *Collection) writeWithMeta(key string, body []byte, xattrs []byte, oldCas CAS, newCas CAS, exp uint32, isJSON, isDeletion bool) error {
 	var e *event
+	c.bucket.postMutex.Lock() // commit + post as one step, like withNewCas
 	err := c.bucket.inTransaction(func(txn *sql.Tx) error {
 		var prevCas CAS
 		var revSeqNo uint64
@@ -80,12 +81,16 @@ func (c *Collection) writeWithMeta(key string, body []byte, xattrs []byte, oldCa
 		return c.storeDocument(txn, e)
 	})
 
+	if err == nil && e != nil {
+		verifPoint("meta.beforePost", c.bucket.name)
+		c.postNewEvent(e)
+	}
+	c.bucket.postMutex.Unlock()
 	if err != nil {
 		return err
 	}
 	if e != nil {
-		verifPoint("meta.beforePost", c.bucket.name)
-		c.postNewEvent(e)
+		c.bucket.expManager.scheduleExpirationAtOrBefore(e.exp)
 	}
 	return nil
 }
